@@ -163,10 +163,12 @@ def cellUpdates [Val V] (d : MDecl V) (t : V) : Action V → List (CellUpd V)
 
 /-! ### (ii) file-backed run: compilation to value-object calls -/
 
-/-- position of the value object constructed with parameters `p` (construction order) -/
+/-- position of the YOUNGEST value object constructed with parameters `p`: the metric object a call reaches holds the
+value objects its own `_metric_init` created — after `remove()` + `labels()` those of the re-created child, not the
+stale ones of the dropped child (which stay in the closure's `values` list) -/
 def pidx (p : Params) : List Params → Nat
   | [] => 0
-  | q :: r => if q = p then 0 else pidx p r + 1
+  | _ :: r => if p ∈ r then pidx p r + 1 else 0
 
 def toVop (ps cells : List Params) : CellUpd V → List (Values.Op V)
   | .inc pos a => match cells[pos]? with | some p => [.inc (pidx p ps) a] | none => []
